@@ -95,6 +95,9 @@ func c02Searches(p *run.Part, tier string) []*seqx.Search {
 		return &seqx.Search{Part: p, Check: "bfs", Cfg: cfg, Alphabet: Alphabet(3, false), Depth: d, Prefix: Prefixes[prefix], PrefixID: prefix,
 			Deadline: dl, Nontrivial: forked,
 			OnTransition: func(w *seqx.World, pre *seqx.Pre, op seqx.Op, st *seqx.Step, c seqx.Case) {
+				if expectedDenial(w, pre, op, st) {
+					st = &seqx.Step{UID: -1} // a refused append or merge: the log must be as before, the oracles below apply
+				}
 				if stepFailure(p, "bfs", op, st, c) {
 					return
 				}
@@ -105,6 +108,7 @@ func c02Searches(p *run.Part, tier string) []*seqx.Search {
 	return []*seqx.Search{
 		mk(CfgDef3, "", depth), mk(CfgShared3, "", depth-1), mk(CfgHash3, "", depth-1),
 		mk(CfgDef3, "+chain20", pdepth), mk(CfgDef3, "+fork12", pdepth), mk(CfgDef3, "+tri4", pdepth), mk(CfgClk3, "", depth-1),
+		mkPolicy(mk, "denyB/default", depth), mkPolicy(mk, "denyP3/default", depth),
 	}
 }
 
